@@ -452,10 +452,21 @@ def handleRequest (cfg : Config) (src : Ip) (buf : Bytes) (body : Body) : Gate :
           | .bad => .reply (gateError h (some q) RC_FORMERR)
           | .ok edns => catalogHandle cfg.catalog h q edns
 
-/-- class predicate of the finding "compressed question echoed verbatim": the question name of
-the request contains a compression pointer (necessarily into the header), i.e. the bytes consumed
-for the name are not the plain wire form of the decoded name. -/
-def compressedQuestion (q : Question) : Bool := q.raw.length != q.name.encodedLen + 4
+/-- the name bytes of the question are the uncompressed wire form of the decoded name -/
+def plainQuestion (q : Question) : Bool := q.raw.take (q.raw.length - 4) == Name.wire q.name
+
+/-- Class predicate of the finding `C11.CompressedQuestionEcho`: the server answers the request
+with the question echoed (known opcode, question decodes) and the question name contains a
+compression pointer (necessarily into the header), i.e. its bytes are not the plain wire form of
+the decoded name.  The harness computes the same predicate from the real decoder's output. -/
+def compressedQuestionEcho (buf : Bytes) : Bool :=
+  match readHeader buf with
+  | some h =>
+    !h.qr && knownOpcode h.opcode &&
+      (match readQueries buf h.qd with
+       | .ok q => !plainQuestion q
+       | _ => false)
+  | none => false
 
 end ServerGate
 end HickoryVerif
